@@ -228,6 +228,49 @@ def decode(buf, t, pos=0):
     raise RefError("unknown type %s" % name)
 
 
+def encode_neutral(n, t):
+    """Reference encoding straight from a neutral value."""
+    out = bytearray()
+    _enc_n(out, n, t)
+    return bytes(out)
+
+
+def _enc_n(out, n, t):
+    name, kids = t
+    if name in INTS:
+        out += _int_bytes(n, *INTS[name])
+    elif name == "bool":
+        out += b"\x01" if n else b"\x00"
+    elif name == "float":
+        out += n[1].to_bytes(4, "little")
+    elif name == "double":
+        out += n[1].to_bytes(8, "little")
+    elif name == "string":
+        b = n.encode("utf-8")
+        out += _u64(len(b)) + b
+    elif name == "UUID":
+        out += n[1]
+    elif name == "Offset":
+        out += n[1] + _u64(n[2])
+    elif name in ("sequence", "set"):
+        out += _u64(len(n[1]))
+        for x in n[1]:
+            _enc_n(out, x, kids[0])
+    elif name == "mapping":
+        out += _u64(len(n[1]))
+        for k, x in n[1]:
+            _enc_n(out, k, kids[0])
+            _enc_n(out, x, kids[1])
+    elif name == "tuple":
+        for x, kt in zip(n[1], kids):
+            _enc_n(out, x, kt)
+    elif name == "variant":
+        out += _u64(n[1])
+        _enc_n(out, n[2], kids[n[1]])
+    else:
+        raise RefError("unknown type %s" % name)
+
+
 def neutral(v, t, round32=True):
     """Neutral form of a gtirb-form value (what decode(encode(v)) must
     give, up to set/map order).  float values are rounded to binary32 when
